@@ -127,6 +127,9 @@ Definition ser_list {A} (f : A -> list Z) (l : list A) : list Z := flat_map f l.
 (* transform sweep: constraint, raw values -> transform(raw) terms *)
 Definition run_transform (c : cons * list Qc) : list Z :=
   let '(k, raws) := c in ser_list (fun r => ser_expr (transform_e k (EConst r))) raws.
+(* the same with raw values given as terms (m * 2^e for the extremes of the float range) *)
+Definition run_transform_e (c : cons * list expr) : list Z :=
+  let '(k, raws) := c in ser_list (fun r => ser_expr (transform_e k r)) raws.
 (* inverse sweep: constraint, interior values -> [ok; inverse(v) term]; 0 if not interior *)
 Definition run_inverse (c : cons * list Qc) : list Z :=
   let '(k, vs) := c in
@@ -157,11 +160,11 @@ Definition run_prior (c : prior_cfg * list Qc) : list Z :=
   let '(p, xs) := c in ser_list (fun x => ser_expr (lp_of p x)) xs.
 
 Inductive c17_case :=
-| KTransform (c : cons * list Qc) | KInverse (c : cons * list Qc)
+| KTransform (c : cons * list Qc) | KTransformE (c : cons * list expr) | KInverse (c : cons * list Qc)
 | KHistory (c : cons * Qc * list (op Qc expr)) | KPrior (c : prior_cfg * list Qc).
 
 Definition run_c17 (k : c17_case) : list Z :=
   match k with
-  | KTransform c => run_transform c | KInverse c => run_inverse c
+  | KTransform c => run_transform c | KTransformE c => run_transform_e c | KInverse c => run_inverse c
   | KHistory c => run_history c | KPrior c => run_prior c
   end.
